@@ -18,6 +18,7 @@ CONSTANTS
   UserParams,            \* sequence of [g, p] records: the SetParam alphabet (besides the two rates)
   LockNames,             \* group names lockGroup/unlockGroup are tried with
   Files,                 \* sequence of byte sequences that may be loaded (spec-generated files); <<>> switches loading off
+  WithEdits,             \* TRUE: stored frames are edited in place through the public non-const accessors
   WithReload,            \* TRUE: save + load (through the file format model) is an action
   Lookups,               \* TRUE: the read-only look-ups of C11 are explored in every state
   CallerIds,             \* identities of caller-side frame objects (C08); {} switches them off
@@ -67,6 +68,8 @@ FrameOfKind(kind, tag) ==
     [] kind = "empty"  -> EmptyFrame
     [] kind = "padded" -> PadNames(MkFrame(PLabels, DeclSubs, ALabels, tag))                       \* names given with a trailing space (setter)
     [] kind = "ctorpad"-> PadNames(MkFrame(PLabels, DeclSubs, ALabels, tag)) @@ [ctor |-> 1]     \* same, through the naming constructors
+    [] kind = "undeclA"-> MkFrame(PLabels, 1, <<YName>>, tag)               \* analog samples although no channel is declared
+    [] kind = "undeclP"-> MkFrame(<<XName>>, DeclSubs, ALabels, tag)         \* a point although no point is declared
     [] kind = "nopts"  -> MkFrame(<<>>, DeclSubs, ALabels, tag)
     [] kind = "noan"   -> MkFrame(PLabels, 0, <<>>, tag)
 KindApplies(kind) ==
@@ -74,6 +77,8 @@ KindApplies(kind) ==
     [] kind = "morept" -> PUsed >= 1
     [] kind \in {"lessch", "morech"} -> AUsed >= 1 /\ DeclSubs >= 1
     [] kind \in {"padded", "ctorpad"} -> PUsed >= 1
+    [] kind = "undeclA" -> AUsed = 0 /\ ALabels = <<>>
+    [] kind = "undeclP" -> PUsed = 0 /\ PLabels = <<>>
     [] kind = "nopts" -> PUsed >= 1 /\ AUsed >= 1 /\ DeclSubs >= 1
     [] kind = "noan" -> PUsed >= 1 /\ AUsed >= 1 /\ DeclSubs >= 1
     [] OTHER -> TRUE
@@ -109,10 +114,13 @@ AddFrameF(f, idx, op) ==
   ELSE /\ Done(UpdateParameters(obj, Store(obj.frm, f, idx), <<>>, <<>>), op, "ok", <<>>)
 
 IdxRange == {-1} \cup 0..(NF + IdxSlack - 1)
+\* tag 0 = automatic: the payload is derived from the data-set size and the target, so that every stored frame of a history
+\* differs from the others without a further choice dimension
+AutoTag(tag, idx) == IF tag # 0 THEN tag ELSE IF idx = -1 THEN NF + 1 ELSE NF + 5 + idx
 AddFrame(kind, tag, idx) ==
   /\ KindApplies(kind)
   /\ (idx = -1 => NF < MaxFrames) /\ idx < MaxFrames
-  /\ LET arg == FrameOfKind(kind, tag) IN
+  /\ LET arg == FrameOfKind(kind, AutoTag(tag, idx)) IN
      AddFrameF(NormFrame(arg), idx, [op |-> "AddFrame", idx |-> idx, frame |-> arg]) /\ UNCHANGED callers
 
 (* ---------- c3d::point(name) / point(frames) (src/ezc3d.cpp:320-356) ---------- *)
@@ -417,7 +425,7 @@ Next ==
   \/ \E k \in CallerIds, kind \in FrameKinds, t \in Tags : ShapeReady /\ CallerNew(k, kind, t)
   \/ \E k \in CallerIds, t \in Tags : CallerMutate(k, t)
   \/ \E k \in CallerIds, i \in IdxRange : AddCallerFrame(k, i)
-  \/ \E f \in 1..MaxFrames, t \in Tags : CallerIds # {} /\ EditStored(f, t)
+  \/ \E f \in 1..MaxFrames, t \in Tags : WithEdits /\ EditStored(f, IF t = 0 THEN 200 + f ELSE t)
   \/ Lookups /\ \E q \in Queries(obj) : Get(q)
   \/ WithReload /\ Reload
   \/ \E i \in 1..Len(Files) : LoadBytes(i)
@@ -427,6 +435,9 @@ Spec == Init /\ [][Next]_vars
 (* ---------- what is exported for the replay (direction B) ---------- *)
 AbsHdr(h) == h @@ [nanalogs |-> HdrAnalogs(h), nframes |-> HdrFrames(h)]
 Abs(o) == [hdr |-> AbsHdr(o.hdr), prm |-> o.prm, grp |-> o.grp, frm |-> o.frm]
+
+\* inverse of Abs (drops the two derived header fields)
+StateOfPost(p) == [hdr |-> [f \in DOMAIN p.hdr \ {"nanalogs", "nframes"} |-> p.hdr[f]], prm |-> p.prm, grp |-> p.grp, frm |-> p.frm]
 
 (* ---------- properties ---------- *)
 \* C10 at design level: a refused call changes nothing (true by construction; the content is in the binding)
@@ -480,7 +491,7 @@ NamesTrimmed ==
 \* C01: what was saved is what loads back (content: names upper-cased, everything else bit for bit)
 HasGapFrame(o) == \E i \in 1..Len(o.frm) : ~Filled(o.frm[i])
 \* known finding C01/C03 gap-frames-on-disk: empty frames created by extension are written as nothing
-KF_GapFramesOnDisk(o) == HasGapFrame(o) /\ \E i \in 1..Len(o.frm) : Filled(o.frm[i])
+KF_GapFramesOnDisk(o) == HasGapFrame(o)
 RoundTrip ==
   (Mand(obj.grp) /\ ~KF_GapFramesOnDisk(obj)) =>
      LET b == WriterModel(obj)  r == ReaderModel(b) IN
